@@ -65,7 +65,7 @@ const ABSOLUTE: [(&str, &str); 3] = [
     ("param-named-inputs", "[a, {A0}]"),
 ];
 
-const AB_POOL: [(&str, &str); 4] = [("1", "2"), ("\"s\"", "[1, 2]"), ("null", "{k: 1}"), ("[0]", "true")];
+const AB_POOL: [(&str, &str); 5] = [("1", "2"), ("\"s\"", "[1, 2]"), ("null", "{k: 1}"), ("[0]", "true"), ("max", "[abs, x => x]")];
 const ARGS: [&str; 6] = ["2", "\"t\"", "[1]", "null", "true", "{k: 1}"];
 
 /// Contexts: (name, program with {CALL} placeholder, how the top-level value is wrapped)
